@@ -360,6 +360,9 @@ def run_kernel(ctx, ob, spec, rec):
                                        "trace": "".join(o.trace), "outcome": o.kind + (": " + o.msg if o.msg else "")})
                     pending.append(("cex", inst, shape, conc, label))
             rec["paths"] += len(outs)
+            rec["blocks"] = rec.get("blocks", 0) + ex.blocks_executed
+            if n_ret:
+                rec["cases"] = rec.get("cases", 0) + 1
             rec["queries"] += ex.queries
             rec["solver_s"] += ex.solver_s
             rec["shapes"].append(f"{_inst_name(inst)}{shape}: {len(outs)} paths ({n_ret} returning), {ex.queries} queries")
